@@ -16,7 +16,7 @@ ASSUMPTIONS = ["f(x0) is the objective of the first evaluation point (mean of it
                "the rhoend of run j is rhoend * restarts.rhoend_scale^j; the run index is read from the table's nruns column",
                "restarts performed = (calls of solve_main - 1) + soft restarts granted (wrapper counts)"]
 
-PROF = sc.make_prof(zero_resid=0.25, diag=1.0, rhoend_exps=[1, 1, 2, 3, 5])
+PROF = sc.make_prof(zero_resid=0.25, diag=1.0, rhoend_exps=[1, 1, 2, 3, 5], reg=0.08)      # regularised runs: the thresholds are about sum(r^2)+h
 
 
 @st.composite
